@@ -25,6 +25,56 @@ def run_result(run):
     lx = {x[0]: x[1:] for x in run[2][1:]}
     return 'ok', r[1], lx
 
+
+# ---- the syntactic classes of the theorems (mirrors RunCore.in_core, RunPegTotal.nn / wfr): evidence only
+_LEAF = ('empty', 'eot', 'userfail')
+def _parts(g):
+    if not isinstance(g, list): return g, []
+    return g[0], g[1:]
+
+def g_nn(g):
+    h, a = _parts(g)
+    if h in ('one', 'pred', 'any', 'anyidx', 'userfail'): return True
+    if h == 'seq': return len(a) > 0
+    if h in ('both', 'left', 'right'): return g_nn(a[0]) or g_nn(a[1])
+    if h == 'center': return any(g_nn(x) for x in a)
+    if h == 'either': return g_nn(a[0]) and g_nn(a[1])
+    if h in ('map', 'ctxpush'): return g_nn(a[1])
+    if h in ('discard', 'sub', 'raw', 'unrec'): return g_nn(a[0])
+    if h in ('reqif', 'cond'): return a[0] == 'T' and g_nn(a[1])
+    if h in ('repeat', 'repeatcount', 'interspersedef', 'intersperse', 'interspersecount'):
+        return int(a[0]) >= 1 and g_nn(a[2])
+    return False
+
+def _hi_ok(lo, hi):
+    return hi == 'inf' or int(lo) <= int(hi)
+
+def g_wfr(g):
+    h, a = _parts(g)
+    if h in ('empty', 'one', 'pred', 'seq', 'seqcount', 'eot', 'userfail'): return True
+    if h in ('any', 'anyidx'): return len(a) > 0
+    if h in ('both', 'left', 'right', 'either', 'implies', 'antecedent', 'consequent'): return g_wfr(a[0]) and g_wfr(a[1])
+    if h == 'condimplies': return g_wfr(a[0]) and g_wfr(a[2])
+    if h == 'center': return all(g_wfr(x) for x in a)
+    if h in ('map', 'ctxpush'): return g_wfr(a[1])
+    if h in ('discard', 'sub', 'raw', 'unrec', 'maybe'): return g_wfr(a[0])
+    if h in ('reqif', 'cond'): return g_wfr(a[1])
+    if h in ('repeat', 'repeatcount', 'interspersedef'):
+        return _hi_ok(a[0], a[1]) and g_wfr(a[2]) and g_nn(a[2])
+    if h in ('repeatuntil', 'repeatcountuntil'):
+        return _hi_ok(a[0], a[1]) and g_wfr(a[2]) and g_wfr(a[3]) and g_nn(a[3])
+    if h in ('intersperse', 'interspersecount'):
+        return _hi_ok(a[0], a[1]) and g_wfr(a[2]) and g_wfr(a[3]) and g_nn(a[2])
+    if h in ('intersperseuntil', 'interspersecountuntil'):
+        return _hi_ok(a[0], a[1]) and g_wfr(a[2]) and g_wfr(a[3]) and g_wfr(a[4]) and g_nn(a[3])
+    return False
+
+def theorem_class(g):
+    try:
+        return 'exact-spec(wfr)' if g_wfr(g) else 'outside-wfr'
+    except Exception:
+        return 'outside-wfr'
+
 class GProp(ParseProp):
     def shrink(self, ct):
         c = pfields(ct)
@@ -46,3 +96,5 @@ class GProp(ParseProp):
         dist['root=' + head] = dist.get('root=' + head, 0) + 1
         kind = run_result(it[1])[0] if len(it) > 1 and isinstance(it[1], list) and it[1][0] == 'run' else '?'
         dist['result=' + kind] = dist.get('result=' + kind, 0) + 1
+        tc = theorem_class(c['g'])
+        dist['theorem_class=' + tc] = dist.get('theorem_class=' + tc, 0) + 1
